@@ -65,6 +65,7 @@ def units(tier, variant):
         lenses += [('objectives.DoubleGauss', 0.0), ('objectives.DoubleGauss', 1.0), ('objectives.ReverseTelephoto', 0.7),
                    ('objectives.Telephoto', 1.0), ('simple.CementedAchromat', 0.5), ('objectives.TessarLens', 1.0),
                    ('objectives.PetzvalLens', 0.7), ('eyepieces.EyepieceErfle', 0.5)]
+    lenses += [('vmc.failing-rim-rays', 0.0), ('vmc.failing-rim-rays', 1.0)]
     for name, hy in lenses:
         for f in FAMS:
             out.append(dict(kind='lens', lens=name, Hy=hy, fam=f, N=37 if f == 'fringe' else 21))
@@ -87,6 +88,17 @@ def run_family(part, unit):
     Z = cls()
     idx = [tuple(int(v) for v in t) for t in Z.indices]
     part.states += 1
+    # (0) objects built with the default coefficients are independent of each other (history: edit one, build another)
+    a_ = cls()
+    a_.coeffs[4] = 1.0
+    b_ = cls()
+    part.transitions += 2
+    part.evals += 1
+    vb = float(np.ravel(b_.poly(np.array([0.7]), np.array([0.3])))[0])
+    if vb != 0.0 or any(float(c_) != 0.0 for c_ in b_.coeffs):
+        part.violation(PID, 'default-object-has-zero-coefficients', f'Zernike{fam.capitalize()}.__init__', f'family={fam},history=another-default-object-was-edited',
+                       dict(history=['Z()', 'coeffs[4] = 1', 'Z()']), observed=vb, expected=0.0)
+    a_.coeffs[4] = 0.0
     # (1) indices, order, no repetition
     exp = [ref_index(fam, k) for k in range(120)]
     part.evals += 120
@@ -216,7 +228,7 @@ def run_fitlinear(part, unit):
             part.violation(PID, 'fit-linear-in-data', 'ZernikeFit', f'family={fam},N={N}', dict(set=sname), observed=c3[:6],
                            expected=exp[:6], tol=1e-7)
         # homogeneity over twelve decades of amplitude (data in waves, in nanometres, in metres): residuals far above and far below 1
-        for amp in (1e3, 1e-3, 1e-9):
+        for amp in (1e3, 1e-3, 1e-9, 1e-12, 1e8, 1e10):
             f4 = ZernikeFit(x.copy(), y.copy(), amp * z1, fam, N)
             part.transitions += 1
             c4 = np.asarray(f4.coeffs, dtype=float)
@@ -235,7 +247,12 @@ def run_fitlinear(part, unit):
 
 def run_lens(part, unit):
     from optiland.wavefront import ZernikeOPD
-    o = LZ.sample_lenses()[unit['lens']]()
+    if unit['lens'] == 'vmc.failing-rim-rays':
+        # a stop in air in front of a steep plano-convex lens: the outer pupil rays of the off-axis field miss the lens
+        surfs = [LZ.S('plane', mat='air', t=5.0, stop=True), LZ.S('sphere', R=10.0, mat=['ideal', 1.5, 0.0], t=10.0), LZ.S('plane', mat='air', t=13.0)]
+        o = LZ.build(LZ.spec(surfs, obj=LZ.INF, ap=('EPD', 16.0), ftype='angle', fields=(0.0, 10.0), waves=((0.55, True),)))
+    else:
+        o = LZ.sample_lenses()[unit['lens']]()
     fam, N = unit['fam'], unit['N']
     zo = ZernikeOPD(o, (0.0, unit['Hy']), o.primary_wavelength, num_rings=6, zernike_type=fam, num_terms=N)
     part.states += 1
@@ -246,10 +263,19 @@ def run_lens(part, unit):
     c = np.asarray(zo.coeffs, dtype=float)
     det = dict(lens=unit['lens'], Hy=unit['Hy'], N=N)
     cnd = f'family={fam}'
+    # failed rays carry no OPD sample: the decomposition is that of the valid samples
+    ok = np.isfinite(z)
+    if np.sum(ok) < 2 * N:
+        part.count('skipped-too-few-valid-samples')
+        return
+    if not np.all(ok):
+        part.count('lens-decompositions-with-failed-rays')
+        cnd += ',some-rays-failed'
+    x, y, z = x[ok], y[ok], z[ok]
     A = ref_design(fam, N, x, y)
     Alib = design(fam, N, x, y)
     recon = np.asarray(zo.zernike.poly(np.hypot(x, y), np.arctan2(y, x)), dtype=float)
-    if c.shape != (N,) or np.max(np.abs(recon - Alib @ c)) > 1e-9 * max(1.0, np.max(np.abs(z))):
+    if c.shape != (N,) or not np.all(np.isfinite(c)) or np.max(np.abs(recon - Alib @ c)) > 1e-9 * max(1.0, np.max(np.abs(z))):
         part.violation(PID, 'decomposition-evaluates-its-coefficients', 'ZernikeOPD', cnd, det, observed=recon[:3],
                        expected=(Alib @ c)[:3] if c.shape == (N,) else 'N coefficients', tol=1e-9)
         return
